@@ -15,12 +15,16 @@ Two models carry it.
     unperturbed energy (the `isclose` test) make every evaluation that needs the ill-defined quantity end in the solver's
     ValueError — no value is ever returned for it (`C20_shared_*`); on accepted problems the evaluator answers every element
     (`C20_accepted_answers`, finiteness in the exact model: no division by a small number, `gap` in `Accepted`).
+The two models are bridged for masks given by the caller (`C20_accepted_masks_are_what_C01_needs`): the facts about the masks that the set-up phase consults are
+computed from a `BlockDiag.Problem` (`configOf`), and when `Validate.setup` accepts them the masks are symmetric inside their blocks and select no entry between
+levels equal within `atol` — the mask clauses under which C01–C04 are proved (`MasksOK`).
 Not modelled: the Hermiticity test of symbolic terms (SymPy's `is_hermitian`), the numerical (bi)orthonormality test itself
 (the model takes its verdict as a fact), finiteness in floating point — exercised by the correspondence only.
 -/
 import PymaVerif.Model.Validate
 import PymaVerif.Proofs.SharedError
 import PymaVerif.Proofs.DriverTotal
+import PymaVerif.Proofs.ValidateBridge
 
 namespace Pyma
 namespace Props
@@ -225,6 +229,20 @@ theorem C20_accepted_answers (h : p.Accepted) (x : String) (hx : x ∈ mainNames
   Problem.driver_total h x hx idx
 
 example : wShared.sharedPair 0 1 = true := wShared_shared
+
+/-- **C20 ↔ C01** what the set-up phase checks of masks given by the caller is what the theorems C01–C04 need of them: if the model of the set-up phase
+(`Validate.setup` on the facts computed from the problem, `configOf`) accepts, the masks are symmetric inside their blocks and select no entry between levels
+equal within `atol` — the two mask clauses of `MasksOK` -/
+theorem C20_accepted_masks_are_what_C01_needs [LawfulThresholds K] (hn : p.nblocks ≠ 1) (l : List (Nat × Array Bool)) (hfd : p.fd = .dict l) (hne : l ≠ [])
+    (hok : Validate.setup p.configOf = .ok) :
+    (∀ a b : Fin p.d, p.blk a.val = p.blk b.val → p.elim a.val b.val = p.elim b.val a.val) ∧
+    (∀ a b : Fin p.d, p.blk a.val = p.blk b.val → p.elim a.val b.val = true → p.equalEigs a.val b.val = false) :=
+  masks_ok_of_setup hn hfd hne hok
+
+-- the dict-mask witness is accepted by the model of the set-up phase; a mask that selects a pair of equal levels (`wd` with both levels of its first block at 2) is not
+example : Validate.setup wd.configOf = .ok := by decide +kernel
+example : Validate.setup ({ wd with terms := [([0], ⟨4, #[2,0,0,0, 0,2,0,0, 0,0,5,0, 0,0,0,5]⟩)] } : Problem ℚ).configOf =
+    .valueError "mask eliminates a degenerate pair" := by decide +kernel
 
 end Props
 end Pyma
